@@ -1076,6 +1076,20 @@ def main(argv):
                     print('case %d: approx mismatch beyond exact horizon at step %d: %s' % (case, a['step'], diff), file=sys.stderr)
                 break
         if first:
+            # reproduce before reporting: the same scenario once more in a fresh directory.  A difference that does not come back is
+            # kept as an artefact (both dumps) and counted, not reported: the real binary is deterministic for a fixed input (that is
+            # property C12 and checked there), so a one-off difference is an artefact of the harness under load.
+            r2 = run_real(gs, d + '_again')
+            if r2[0] == 'ok' and len(r2[1]) == len(ms) and not any(compare_step(a, b, approx=(k >= h)) for k, (a, b) in enumerate(zip(ms, r2[1])) if k < h):
+                keepdir = os.path.join(os.path.dirname(os.path.dirname(os.path.abspath(__file__))), '.work', 'transient-%d-%d' % (os.getpid(), case))
+                try:
+                    shutil.copytree(d, keepdir, dirs_exist_ok=True)
+                    shutil.copytree(d + '_again', keepdir + '/again', dirs_exist_ok=True)
+                except Exception:
+                    pass
+                summ.setdefault('transient_not_reproduced', []).append(dict(case=case, detail=first['detail'], step=first['step'], kept=keepdir))
+                first = None
+        if first:
             first['model_input'] = to_model(gs)
             first['field'] = classify_field(gs, first['detail'])
             first['scenario'] = to_symlib(gs)
